@@ -39,12 +39,17 @@ class Scheduler:
         self.probes = {"concurrent_same_class_build": 0, "switch_inside_tagged_scratch": 0, "switch_inside_build": 0}
         pts = policy.get("points")
         self._points = set(pts) if pts else None
+        # finer than the property asks for: pre-emption between bytecodes
+        self.opcodes = bool(policy.get("opcodes"))
+        self._step_event = "opcode" if self.opcodes else "line"
 
     # -- tracing -------------------------------------------------------------
     def _global_trace(self, frame, event, arg):
         code = frame.f_code
         if not steps.is_traced_file(code.co_filename):
             return None
+        if self.opcodes:
+            frame.f_trace_opcodes = True
         if code.co_name in ("entity_reader", "entity_writer"):
             me = self.cur
             key = (code.co_name, id(frame.f_locals.get("entity_type")), frame.f_locals.get("nullable"))
@@ -65,7 +70,7 @@ class Scheduler:
         return self._local_trace(frame, event, arg) and self._local_trace_build
 
     def _local_trace(self, frame, event, arg):
-        if event == "line":
+        if event == self._step_event:
             self.steps += 1
             n = self.steps
             if n > self.step_cap:
